@@ -206,4 +206,19 @@ def run(ctx, ck):
     ck.rule('R-SYM.ground-halves', 'statements selecting one half of the ground flags select the other too')
     nsel, nst = check_ground_symmetry(ctx, ck)
     ck.floor('statements selecting a half of the ground flags', nst, 3)
+    # the matrix fill treats the antenna over ground like the antenna plus its image in free space: apart from
+    # the image terms (per-pulse ground flags, image sign) nothing in its closure may depend on which *objects*
+    # touch the ground - the free-space model has no such notion (kernel choice, connectivity, shortcuts)
+    ck.rule('R-EFFECT.no-object-ground-state', 'matrix fill / potentials do not read the per-object ground state')
+    prog = ctx.program
+    fill = m.func('mininec.Mininec.compute_impedance_matrix')
+    seen_ = prog.closure([fill])
+    ck.floor('functions in the matrix-fill closure', len(seen_), 20)
+    hits = [e for q_ in sorted(seen_) for e in prog.effects.get(q_, []) if e.attr == 'is_ground' and e.mode == 'read']
+    for e in hits:
+        ck.ob('R-EFFECT.no-object-ground-state', '%s|%s.%s' % (e.func.qual, e.cls, e.attr), False, e.func.loc(e.node),
+              '%s, reached from the matrix fill, reads %s.is_ground: the treatment of a pulse pair depends on whether '
+              'objects end on the ground plane, which the equivalent free-space model with image wires cannot' % (e.func.qual, e.cls))
+    ck.ob('R-EFFECT.no-object-ground-state', fill.qual + '|closure', not hits, fill.loc(),
+          'closure of the matrix fill (%d functions) never reads an object\'s is_ground' % len(seen_))
     ck.undecided += ['numeric equality with the mirrored free-space model', 'gain 3.0103 dB above the free-space pair']
